@@ -13,25 +13,37 @@ EXTENDS Integers, Sequences, FiniteSets, FloatOrd, Json, IOUtils, TLC
 Targets == {"Stdout", "File", "Stream", "Buffer", "Sink"}
 
 \* ---- design level: a solver's target, verbosity, and per-target ghost logs -------------
-VARIABLES target, verbose, logs, l
-pvars == <<target, verbose, logs, l>>
+CONSTANT MaxHist        \* 0: no history kept (trace validation, MC_Print); k > 0: behaviours of k steps are exported for replay
+VARIABLES target, verbose, logs, l, hist
+pvars == <<target, verbose, logs, l, hist>>
+Rem(a) == hist' = IF MaxHist > 0 THEN Append(hist, a) ELSE hist
+Open == MaxHist = 0 \/ Len(hist) < MaxHist
 
 Emit(chunk) == logs' = [logs EXCEPT ![target] = IF verbose THEN Append(@, chunk) ELSE @]
 
-SetTarget(t) == target' = t /\ logs' = [logs EXCEPT !["Buffer"] = IF t = "Buffer" THEN <<>> ELSE @]
-                /\ UNCHANGED <<verbose, l>>
-SetVerbose(v) == verbose' = v /\ UNCHANGED <<target, logs, l>>
+SetTarget(t) == Open /\ target' = t /\ logs' = [logs EXCEPT !["Buffer"] = IF t = "Buffer" THEN <<>> ELSE @]
+                /\ Rem([op |-> "target", t |-> t]) /\ UNCHANGED <<verbose, l>>
+SetVerbose(v) == Open /\ verbose' = v /\ Rem([op |-> "verbose", v |-> v]) /\ UNCHANGED <<target, logs, l>>
 \* a whole solve emits Banner Config Header Row+ Footer to the current target only
-Solve == /\ logs' = [logs EXCEPT ![target] = IF verbose THEN @ \o <<"Banner", "Config", "Header", "Row", "Footer">> ELSE @]
-         /\ UNCHANGED <<target, verbose, l>>
+Solve == /\ Open
+         /\ logs' = [logs EXCEPT ![target] = IF verbose THEN @ \o <<"Banner", "Config", "Header", "Row", "Footer">> ELSE @]
+         /\ Rem([op |-> "solve"]) /\ UNCHANGED <<target, verbose, l>>
 GetBufferOk == target = "Buffer"
 
-DInit == target = "Stdout" /\ verbose = TRUE /\ logs = [t \in Targets |-> <<>>] /\ l = 1
+DInit == target = "Stdout" /\ verbose = TRUE /\ logs = [t \in Targets |-> <<>>] /\ l = 1 /\ hist = <<>>
 DNext == (\E t \in Targets : SetTarget(t)) \/ (\E v \in BOOLEAN : SetVerbose(v)) \/ Solve
 DSpec == DInit /\ [][DNext]_pvars
 \* only the current target ever grows; nothing is written while verbose is off
 OnlyCurrentGrows == [][\A t \in Targets : (logs'[t] # logs[t] /\ Len(logs'[t]) > Len(logs[t])) => (t = target /\ verbose)]_pvars
 Bounded == \A t \in Targets : Len(logs[t]) <= 10
+\* spec -> impl: one line per behaviour of MaxHist steps; the replayer drives a real solver through the same calls and compares,
+\* per target, the number of complete logs received (and whether get_print_buffer is available at the end).  Behaviours
+\* that would print to the process's real stdout are not exported.
+Logs(t) == Cardinality({k \in 1..Len(logs[t]) : logs[t][k] = "Banner"})
+NoStdoutOutput == logs["Stdout"] = <<>>
+EmitReplay == (MaxHist > 0 /\ Len(hist) = MaxHist /\ NoStdoutOutput) =>
+   PrintT(<<"REPLAY", ToJson([hist |-> hist, buffer |-> Logs("Buffer"), stream |-> Logs("Stream"), file |-> Logs("File"),
+                               getbuf_ok |-> GetBufferOk])>>)
 
 \* ---- trace level ------------------------------------------------------------------------
 Rec == ndJsonDeserialize(IOEnv.TRACE)
@@ -88,7 +100,7 @@ CaseOK(e) ==
   /\ (IOEnv.STRICT_LAST_ROW = "1") => LastRowOK(e)
 
 TCase == l <= Len(Rec) /\ Rec[l].ev = "PrintCase" /\ CaseOK(Rec[l]) /\ l' = l + 1
-         /\ UNCHANGED <<target, verbose, logs>>
+         /\ UNCHANGED <<target, verbose, logs, hist>>
 TSpec == DInit /\ [][TCase]_pvars
 TraceAccepted ==
   LET n == TLCGet("stats").diameter - 1 IN
